@@ -77,7 +77,9 @@ def families(tier, seed):
 
 
 def main():
-    chk = Check("C17", "exploration")
+    chk = Check("C17", "other")
+    # deductive core: frame (ownership) contracts of the functions this property rests on (contracts/frames.py)
+    chk.run_frames()
     _cases = families(chk.tier, chk.seed)
     _results = driver.run_family(
         chk, "grid_search-vs-individual-runs", _cases, cases.case_fn, site="C17/grid_search",
